@@ -10,7 +10,7 @@ from . import base
 TRUSTED_BASE = base.TRUSTED_BASE + ['copy.deepcopy copies deeply and np.array(list) copies (the model allocates fresh cells for them)']
 ASSUMPTIONS = base.ASSUMPTIONS + ['routes are exactly those listed in the statement; copy() (documented shallow), .T and flatten()/ravel() are not among them',
                                   'indexing views are exercised on 2-D objects (x[i] is a row view; 1-D integer indexing returns a copy of the element)']
-RULE = ('HEAP lines: random histories (<=14 steps) that create objects, derive new ones by like=, deepcopy (also flatten() and .T of 1-D objects), like(), conversion, +, np.add, ~, >> (trunc/keep), row indexing, strided / reversed slicing, column indexing (also of views), and then mutate one (whole write, indexed write, config change, flag-raising write, reset); '
+RULE = ('HEAP lines: random histories (<=14 steps) that create objects, derive new ones by like=, fxp_like(), deepcopy (also flatten() and .T of 1-D objects), like(), conversion, +, np.add, ~, >> (trunc/keep), row indexing, strided / reversed slicing, column indexing (also of views), and then mutate one (whole write, indexed write, config change, flag-raising write, reset); '
         'after every step the observable state (format, codes, config, flags) of ALL live objects and the real sharing graph (config/status identity, np.shares_memory) are compared with the model. '
         'INP lines: lists / nested lists / tuples / arrays of numbers and of bin/hex strings are deep-compared before and after construction (constructor, call, set_val; from_bin as function and method for unprefixed binary strings). BCF lines: every Config field x invalid values through the setter, Fxp kwargs and Config(). '
         'non-trivial = a history with at least one derivation followed by a mutation')
@@ -70,6 +70,8 @@ def exec_HEAP(t):
                     add(p[1], src.T)                  # transpose of a 1-D object: an independent object with the same codes
                 else:
                     add(p[1], copy.deepcopy(src) if how % 2 else src.deepcopy())
+            elif k == 'J':
+                add(p[1], fxpmath.fxp_like(objs[p[2]], pyval(frac(p[3]))))
             elif k == 'L':
                 add(p[1], objs[p[2]].like(objs[p[3]]))
             elif k == 'V':
@@ -237,7 +239,7 @@ def generate(tier, rng):
             if len(live) >= 7:
                 kind = rng.choice(['W', 'I', 'G', 'R', 'F'])
             else:
-                kind = rng.choice(['N', 'K', 'C', 'L', 'V', 'A', 'P', 'B', 'H', 'X', 'T', 'T', 'Y', 'W', 'W', 'I', 'I', 'I', 'G', 'G', 'R', 'F'])
+                kind = rng.choice(['N', 'K', 'C', 'J', 'L', 'V', 'A', 'P', 'B', 'H', 'X', 'T', 'T', 'Y', 'W', 'W', 'I', 'I', 'I', 'G', 'G', 'R', 'F'])
             src = rng.choice(list(live))
             o = live[src]
             if kind == 'N':
@@ -247,6 +249,11 @@ def generate(tier, rng):
                 nm = next(names); live[nm] = (o[0], o[1], o[2], 0, 0); steps.append('K:%s:%s' % (nm, src))
             elif kind == 'C':
                 nm = next(names); live[nm] = o; steps.append('C:%s:%s' % (nm, src))
+            elif kind == 'J':
+                # fxp_like(template, value): a new scalar object like the template (in range or flag-raising value)
+                so = (o[0], o[1], o[2], 0, 0)
+                v = wvals(so, big=rng.random() < 0.3)[0]
+                nm = next(names); live[nm] = so; steps.append('J:%s:%s:%s' % (nm, src, tok_frac(v)))
             elif kind == 'L':
                 t_ = rng.choice(list(live)); to = live[t_]
                 nm = next(names); live[nm] = (to[0], to[1], to[2], o[3], o[4]); steps.append('L:%s:%s:%s' % (nm, src, t_))
